@@ -158,7 +158,7 @@ def correctable(item):
         try:
             with common.time_limit(10):
                 c = np.asarray(dec.decode(s)).ravel() % 2
-                if sweep is True or j_ % 3 == 0:
+                if sweep is True or (j_ + j_ // 3 + j_ // 9) % 3 == 0:
                     # the caller still holds the measured syndrome: decoding the
                     # SAME array again must correct the error just as well
                     c = np.asarray(dec.decode(s)).ravel() % 2
